@@ -25,6 +25,32 @@ def stream_semantics(ctx):
             calls = [c for c in ctx.calls(b) if not b.is_cleanup(c.loc.bb)]
             nexts = [c for c in calls if c.method == "next" and c.arg_path(0) is not None and c.arg_path(0).root == 1 and len(c.arg_path(0).fields()) == 1]
             conts = [c for c in calls if c.local_callee() is not None and api_of(c.local_callee().path) == "HashSet::contains"]
+            finds = [c for c in calls if c.method == "find" and c.arg_path(0) is not None and c.arg_path(0).root == 1 and len(c.arg_path(0).fields()) == 1
+                     and c.closure_args()]
+            if len(finds) == 1 and not nexts and not conts:
+                # self.iter.find(|x| self.other.contains(x)) / find(|x| !self.other.contains(x))
+                F = finds[0]
+                cb = F.closure_args()[0]
+                cc = [c for c in ctx.calls(cb) if c.local_callee() is not None and api_of(c.local_callee().path) == "HashSet::contains" and not cb.is_cleanup(c.loc.bb)]
+                if len(cc) == 1 and not cb.loops() and F.dest is not None and not F.dest["proj"] and F.dest["local"] in b.ret_locals():
+                    C_ = cc[0]
+                    _, op2 = ctx.resolve(cb, C_.arg_path(0))
+                    _, sl_args = cb.slice_back(C_.loc, [C_.args[1]])
+                    pol = None
+                    if C_.dest is not None and not C_.dest["proj"] and C_.dest["local"] in cb.ret_locals():
+                        pol = "in"
+                    else:
+                        for loc_, st_ in cb.all_assigns():
+                            if st_["place"]["local"] in cb.ret_locals() and st_["rv"]["k"] == "unop" and st_["rv"]["op"] == "Not":
+                                dd = cb.source_def(st_["rv"]["a"])
+                                if dd is not None and dd[1] == "call" and dd[0] == C_.loc:
+                                    pol = "notin"
+                    if pol and op2 is not None and op2.root == 1 and len(op2.fields()) == 1 and 2 in sl_args \
+                            and all(C_.loc.bb == rb or C_.loc.bb in cb.dom().get(rb, set()) for rb in cb.return_blocks()):
+                        out[adt] = ("filter", pol, F.arg_path(0).fields()[0][2], op2.fields()[0][2])
+                        continue
+                why[adt] = "find() with a predicate that is not a membership test of a field of self"
+                continue
             if len(nexts) == 1 and not conts:
                 n = nexts[0]
                 if n.dest is not None and n.dest["local"] == 0 and not n.dest["proj"] and len(calls) == 1:
